@@ -672,7 +672,7 @@ func withdrawReplacedByRejected(path *table.Path) *table.Path {
 	return w
 }
 
-func (peer *peer) handleUpdate(e *fsmMsg) ([]*table.Path, []bgp.Family, bool) {
+func (peer *peer) handleUpdate(e *fsmMsg, clusterIDs []netip.Addr) ([]*table.Path, []bgp.Family, bool) {
 	m := e.MsgData.(*bgp.BGPMessage)
 	update := m.Body.(*bgp.BGPUpdate)
 
@@ -732,6 +732,16 @@ func (peer *peer) handleUpdate(e *fsmMsg) ([]*table.Path, []bgp.Family, bool) {
 				if path.GetOriginatorID() == routerId {
 					peer.fsm.logger.Debug("Originator ID is mine, ignore",
 						slog.String("OriginatorID", path.GetOriginatorID().String()),
+						slog.String("Data", path.String()))
+
+					path.SetRejected(true)
+					paths = append(paths, withdrawReplacedByRejected(path))
+					continue
+				}
+				// If the local CLUSTER_ID is found in the CLUSTER_LIST,
+				// the advertisement received SHOULD be ignored.
+				if slices.ContainsFunc(path.GetClusterList(), func(id netip.Addr) bool { return slices.Contains(clusterIDs, id) }) {
+					peer.fsm.logger.Debug("cluster list path attribute has local cluster id, ignore",
 						slog.String("Data", path.String()))
 
 					path.SetRejected(true)
